@@ -8,6 +8,8 @@
 //	                index/range/len/delete in the package goes through
 //	                zzverifrt.RP/WP/RM/WM (scheduling point + happens-before
 //	                race detection)
+//	-mode clock     time.Now / time.Since / time.Until go through zzverifrt, where
+//	                the explorer decides what time it is (zzverifrt.ClockHook)
 //	-mode globals   adds VerifGlobals() to every package: pointers to all
 //	                package-level variables
 //	-mode pkgvars   every use of a package-level variable of the repository goes
@@ -46,7 +48,7 @@ func (m *multi) Set(s string) error { *m = append(*m, s); return nil }
 
 func main() {
 	var (
-		mode    = flag.String("mode", "maporder", "maporder,sync,globals,pkgvars")
+		mode    = flag.String("mode", "maporder", "maporder,sync,globals,pkgvars,clock")
 		out     = flag.String("out", "", "overlay json to write")
 		gen     = flag.String("gen", "", "directory for generated files")
 		rt      = flag.String("rt", "", "source file of the zzverifrt package")
@@ -118,6 +120,9 @@ func main() {
 			}
 			if modes["pkgvars"] {
 				changed = in.pkgVars(f) || changed
+			}
+			if modes["clock"] {
+				changed = in.clock(f) || changed
 			}
 			if modes["sync"] && in.usesSync {
 				changed = in.syncShim(f) || changed
@@ -602,6 +607,36 @@ func (in *instr) pkgVars(f *ast.File) bool {
 				wrap(c, n, v)
 				return false
 			}
+		}
+		return true
+	}, nil)
+	return changed
+}
+
+// clock routes every reading of the wall clock (time.Now, time.Since,
+// time.Until) through the runtime, where the explorer decides what time it is.
+func (in *instr) clock(f *ast.File) bool {
+	changed := false
+	info := in.pkg.TypesInfo
+	astutil.Apply(f, func(c *astutil.Cursor) bool {
+		sel, ok := c.Node().(*ast.SelectorExpr)
+		if !ok {
+			return true
+		}
+		id, ok := sel.X.(*ast.Ident)
+		if !ok {
+			return true
+		}
+		pn, ok := info.Uses[id].(*types.PkgName)
+		if !ok || pn.Imported().Path() != "time" {
+			return true
+		}
+		switch sel.Sel.Name {
+		case "Now", "Since", "Until":
+			in.n++
+			in.site(sel.Pos(), "clock:"+sel.Sel.Name)
+			c.Replace(&ast.SelectorExpr{X: ast.NewIdent("zzverifrt"), Sel: ast.NewIdent(sel.Sel.Name)})
+			changed = true
 		}
 		return true
 	}, nil)
